@@ -5,11 +5,13 @@ Require Import ZifyN ZifyNat ZifyBool.
 Ltac Zify.zify_post_hook ::= Z.div_mod_to_equations.
 Open Scope N_scope.
 
+Definition alpn_enc (ids : list bytes) : bytes := flat_map (fun a => (nlen a mod 256) :: a) ids.
+
 (* the wire parameter a declared value stands for *)
 Definition enc (v : sval) : param :=
   match v with
   | VMand ks => (0, flat_map u16be (sort_by (fun k => k) ks))
-  | VAlpn ids => (1, flat_map (fun a => (nlen a mod 256) :: a) ids)
+  | VAlpn ids => (1, alpn_enc ids)
   | VNda => (2, [])
   | VPort p => (3, u16be p)
   | VIp4 a => (4, concat a)
@@ -130,7 +132,7 @@ Qed.
 
 (* ------------------------------------------------------------ alpn, port *)
 Lemma alpn_loop_ok : forall ids w, alpn_loop ids = Ok w ->
-  w = flat_map (fun a => (nlen a mod 256) :: a) ids /\ Forall (fun a => 1 <= nlen a <= 255) ids.
+  w = alpn_enc ids /\ Forall (fun a => 1 <= nlen a <= 255) ids.
 Proof.
   induction ids as [|a t IH]; simpl; intros w H.
   - inversion H. split; [reflexivity|constructor].
@@ -174,6 +176,77 @@ Qed.
 
 Lemma wf_app : forall a b, wf_bytes (a ++ b) <-> wf_bytes a /\ wf_bytes b.
 Proof. intros. unfold wf_bytes. apply Forall_app. Qed.
+
+Lemma has_key_in : forall k l, has_key k l = true <-> In k (map fst l).
+Proof.
+  intros k l. unfold has_key. rewrite existsb_exists. rewrite in_map_iff. split.
+  - intros (p & H1 & H2). exists p. split; [apply N.eqb_eq in H2; exact H2|exact H1].
+  - intros (p & H1 & H2). exists p. split; [exact H2|apply N.eqb_eq; exact H1].
+Qed.
+
+(* ------------------------------------------------------------ the mandatory check *)
+Definition mand_present (d : list sval) : Prop :=
+  forall ks, In (VMand ks) d -> forall k, In k ks -> In k (map key_of d).
+
+Lemma map_fst_enc : forall d, map fst (map enc d) = map key_of d.
+Proof. intro d. rewrite map_map. apply map_ext. apply key_of_enc. Qed.
+
+Lemma chunks_u16 : forall ks fuel, (length (flat_map u16be ks) <= fuel)%nat ->
+  chunks 2 fuel (flat_map u16be ks) = Ok (map u16be ks).
+Proof.
+  induction ks as [|k ks IH]; intros fuel Hf; [destruct fuel; reflexivity|].
+  change (flat_map u16be (k :: ks)) with ((k / 256) mod 256 :: k mod 256 :: flat_map u16be ks) in *.
+  destruct fuel as [|f]; [simpl in Hf; lia|].
+  cbn [chunks firstn skipn length Nat.ltb Nat.leb]. rewrite IH by (simpl in Hf; lia). reflexivity.
+Qed.
+
+Lemma find_key_enc : forall d, Forall good d ->
+  find_key 0 (map enc d) =
+  match find (fun v => key_of v =? 0) d with Some v => Some (snd (enc v)) | None => None end.
+Proof.
+  induction d as [|v d IH]; intro Hg; [reflexivity|]. inversion Hg; subst.
+  unfold find_key in *. simpl. rewrite key_of_enc. destruct (key_of v =? 0); [reflexivity|].
+  apply IH. assumption.
+Qed.
+
+Lemma mand_check_spec : forall d, Forall good d -> NoDup (map key_of d) ->
+  (mand_check (map enc d) = Ok tt /\ mand_present d)
+  \/ (mand_check (map enc d) = Err E_MISSING /\ ~ mand_present d).
+Proof.
+  intros d Hg Hn. unfold mand_check. rewrite find_key_enc by assumption.
+  destruct (find (fun v => key_of v =? 0) d) as [v|] eqn:Ef.
+  - apply find_some in Ef. destruct Ef as [Iv Kv]. apply N.eqb_eq in Kv.
+    rewrite Forall_forall in Hg. pose proof (Hg v Iv) as Gv.
+    destruct v; simpl in Kv; try discriminate; [|simpl in Gv; contradiction].
+    simpl in Gv. destruct Gv as (G1 & G2 & G3). cbn [enc snd].
+    rewrite chunks_u16 by lia. cbn [rbind].
+    set (ks' := sort_by (fun k => k) ks).
+    assert (P : Permutation ks' ks) by apply sort_by_perm.
+    (* the mandatory parameter of the list is this one *)
+    assert (U : forall ks2, In (VMand ks2) d -> ks2 = ks).
+    { intros ks2 I2. clear - Iv I2 Hn. induction d as [|x d IH]; [contradiction|].
+      cbn [map] in Hn. apply NoDup_cons_iff in Hn. destruct Hn as [Hx Hn].
+      destruct Iv as [E|Iv]; destruct I2 as [E2|I2].
+      - subst x. inversion E2. reflexivity.
+      - exfalso. apply Hx. subst x. apply (in_map key_of) in I2. exact I2.
+      - exfalso. apply Hx. subst x. apply (in_map key_of) in Iv. exact Iv.
+      - apply IH; assumption. }
+    destruct (forallb (fun c => has_key (be16 c) (map enc d)) (map u16be ks')) eqn:Ea.
+    + left. split; [reflexivity|]. intros ks2 I2 k Ik. rewrite (U ks2 I2) in Ik.
+      rewrite forallb_forall in Ea. specialize (Ea (u16be k)).
+      rewrite be16_u16be in Ea.
+      * rewrite <- map_fst_enc. apply has_key_in. apply Ea. apply in_map.
+        eapply Permutation_in; [apply Permutation_sym; exact P|exact Ik].
+      * rewrite Forall_forall in G3. specialize (G3 k Ik). lia.
+    + right. split; [reflexivity|]. intro Mp.
+      assert (forallb (fun c => has_key (be16 c) (map enc d)) (map u16be ks') = true); [|congruence].
+      apply forallb_forall. intros c Ic. apply in_map_iff in Ic. destruct Ic as (k & Ec & Ik). subst c.
+      assert (Ik' : In k ks) by (eapply Permutation_in; eauto).
+      rewrite be16_u16be by (rewrite Forall_forall in G3; specialize (G3 k Ik'); lia).
+      apply has_key_in. rewrite map_fst_enc. eapply Mp; eauto.
+  - left. split; [reflexivity|]. intros ks I. exfalso.
+    eapply find_none in Ef; [|exact I]. simpl in Ef. discriminate.
+Qed.
 
 Section Decl.
 Variable orc : oracles.
@@ -266,13 +339,6 @@ Proof.
   exists w. split; [exact H1|]. split; [exact H2|]. split; [exact H3|]. simpl. lia.
 Qed.
 
-Lemma has_key_in : forall k l, has_key k l = true <-> In k (map fst l).
-Proof.
-  intros k l. unfold has_key. rewrite existsb_exists. rewrite in_map_iff. split.
-  - intros (p & H1 & H2). exists p. split; [apply N.eqb_eq in H2; exact H2|exact H1].
-  - intros (p & H1 & H2). exists p. split; [exact H2|apply N.eqb_eq; exact H1].
-Qed.
-
 Lemma ft_loop_ok : forall segs acc l, Forall (fun s => has_byte 59 s = false) segs ->
   ft_loop orc segs acc = Ok l ->
   exists d, all_some (map (decl_param (parse_ip orc) (b64_dec orc)) (list_segments segs)) = Some d
@@ -282,89 +348,25 @@ Lemma ft_loop_ok : forall segs acc l, Forall (fun s => has_byte 59 s = false) se
 Proof.
   induction segs as [|s r IH]; intros acc l Hc H.
   - simpl in H. inversion H; subst. exists []. rewrite app_nil_r. repeat split; try constructor. tauto.
-  - inversion Hc; subst. destruct s as [|c0 s0].
+  - pose proof (Forall_inv Hc) as Hc1. pose proof (Forall_inv_tail Hc) as Hc2. destruct s as [|c0 s0].
     + simpl in H. inversion H; subst. exists []. rewrite app_nil_r. repeat split; try constructor. tauto.
-    + remember (c0 :: s0) as s eqn:Es.
-      assert (Hl : list_segments (s :: r) = s :: list_segments r) by (subst s; reflexivity).
-      rewrite Hl. assert (Hf : ft_loop orc (s :: r) acc =
-        match param_from_text orc s with
-        | Err e => Err e
-        | Ok p => if has_key (fst p) acc then Err E_DUPKEY else ft_loop orc r (acc ++ [p])
-        end) by (subst s; reflexivity).
-      rewrite Hf in H. clear Hf Hl.
+    + set (s := c0 :: s0) in *.
+      change (list_segments (s :: r)) with (s :: list_segments r).
+      change (ft_loop orc (s :: r) acc) with
+        (match param_from_text orc s with
+         | Err e => Err e
+         | Ok p => if has_key (fst p) acc then Err E_DUPKEY else ft_loop orc r (acc ++ [p])
+         end) in H.
       destruct (param_from_text orc s) as [p|e] eqn:Ep; [|discriminate].
       destruct (has_key (fst p) acc) eqn:Ek; [discriminate|].
-      destruct (param_decl s p H1 Ep) as (v & D1 & D2 & D3 & D4).
-      destruct (IH _ _ H2 H) as (d & I1 & I2 & I3 & I4 & I5).
+      destruct (param_decl s p Hc1 Ep) as (v & D1 & D2 & D3 & D4).
+      destruct (IH _ _ Hc2 H) as (d & I1 & I2 & I3 & I4 & I5).
       exists (v :: d). simpl. rewrite D1, I1. split; [reflexivity|]. split.
       { subst l p. rewrite <- app_assoc. reflexivity. }
       split; [constructor; assumption|]. split; [constructor; [subst p; exact D4|exact I4]|].
       intro Hn. apply I5. rewrite map_app. simpl.
-      apply NoDup_app_comm. simpl. constructor; [|exact Hn].
+      eapply Permutation_NoDup; [apply (Permutation_app_comm [fst p])|]. simpl. constructor; [|exact Hn].
       intro I. apply has_key_in in I. congruence.
-Qed.
-
-(* ------------------------------------------------------------ the mandatory check *)
-Definition mand_present (d : list sval) : Prop :=
-  forall ks, In (VMand ks) d -> forall k, In k ks -> In k (map key_of d).
-
-Lemma map_fst_enc : forall d, map fst (map enc d) = map key_of d.
-Proof. intro d. rewrite map_map. apply map_ext. apply key_of_enc. Qed.
-
-Lemma chunks_u16 : forall ks fuel, (length (flat_map u16be ks) <= fuel)%nat ->
-  chunks 2 fuel (flat_map u16be ks) = Ok (map u16be ks).
-Proof.
-  induction ks as [|k ks IH]; intros fuel Hf; [reflexivity|].
-  change (flat_map u16be (k :: ks)) with ((k / 256) mod 256 :: k mod 256 :: flat_map u16be ks) in *.
-  destruct fuel as [|f]; [simpl in Hf; lia|].
-  cbn [chunks firstn skipn length Nat.ltb Nat.leb]. rewrite IH by (simpl in Hf; lia). reflexivity.
-Qed.
-
-Lemma find_key_enc : forall d, Forall good d ->
-  find_key 0 (map enc d) =
-  match find (fun v => key_of v =? 0) d with Some v => Some (snd (enc v)) | None => None end.
-Proof.
-  induction d as [|v d IH]; intro Hg; [reflexivity|]. inversion Hg; subst.
-  unfold find_key in *. simpl. rewrite key_of_enc. destruct (key_of v =? 0); [reflexivity|].
-  apply IH. assumption.
-Qed.
-
-Lemma mand_check_spec : forall d, Forall good d -> NoDup (map key_of d) ->
-  (mand_check (map enc d) = Ok tt /\ mand_present d)
-  \/ (mand_check (map enc d) = Err E_MISSING /\ ~ mand_present d).
-Proof.
-  intros d Hg Hn. unfold mand_check. rewrite find_key_enc by assumption.
-  destruct (find (fun v => key_of v =? 0) d) as [v|] eqn:Ef.
-  - apply find_some in Ef. destruct Ef as [Iv Kv]. apply N.eqb_eq in Kv.
-    rewrite Forall_forall in Hg. pose proof (Hg v Iv) as Gv.
-    destruct v; simpl in Kv; try discriminate; [|simpl in Gv; contradiction].
-    simpl in Gv. destruct Gv as (G1 & G2 & G3). cbn [enc snd].
-    rewrite chunks_u16 by lia. cbn [rbind].
-    set (ks' := sort_by (fun k => k) ks).
-    assert (P : Permutation ks' ks) by apply sort_by_perm.
-    (* the mandatory parameter of the list is this one *)
-    assert (U : forall ks2, In (VMand ks2) d -> ks2 = ks).
-    { intros ks2 I2. clear - Iv I2 Hn. induction d as [|x d IH]; [contradiction|].
-      simpl in Hn. inversion Hn; subst. destruct Iv as [E|Iv]; destruct I2 as [E2|I2]; subst.
-      - inversion E2. reflexivity.
-      - exfalso. apply H1. change 0 with (key_of (VMand ks2)). apply in_map. assumption.
-      - exfalso. apply H1. change (key_of (VMand ks2)) with (key_of (VMand ks)). apply in_map. assumption.
-      - apply IH; assumption. }
-    destruct (forallb (fun c => has_key (be16 c) (map enc d)) (map u16be ks')) eqn:Ea.
-    + left. split; [reflexivity|]. intros ks2 I2 k Ik. rewrite (U ks2 I2) in Ik.
-      rewrite forallb_forall in Ea. specialize (Ea (u16be k)).
-      rewrite be16_u16be in Ea.
-      * rewrite <- map_fst_enc. apply has_key_in. apply Ea. apply in_map.
-        eapply Permutation_in; [apply Permutation_sym; exact P|exact Ik].
-      * rewrite Forall_forall in G3. specialize (G3 k Ik). lia.
-    + right. split; [reflexivity|]. intro Mp.
-      assert (forallb (fun c => has_key (be16 c) (map enc d)) (map u16be ks') = true); [|congruence].
-      apply forallb_forall. intros c Ic. apply in_map_iff in Ic. destruct Ic as (k & Ec & Ik). subst c.
-      assert (Ik' : In k ks) by (eapply Permutation_in; eauto).
-      rewrite be16_u16be by (rewrite Forall_forall in G3; specialize (G3 k Ik'); lia).
-      apply has_key_in. rewrite map_fst_enc. eapply Mp; eauto.
-  - left. split; [reflexivity|]. intros ks I. exfalso.
-    eapply find_none in Ef; [|exact I]. simpl in Ef. discriminate.
 Qed.
 
 (* ------------------------------------------------------------ FromText against the declared values *)
@@ -381,4 +383,440 @@ Proof.
   assert (Hn : NoDup (map key_of d)) by (rewrite <- map_fst_enc; apply D5; constructor).
   destruct (mand_check_spec d D3 Hn) as [[M1 M2]|[M1 M2]]; rewrite M1 in H; cbn [rbind] in H; [|discriminate].
   inversion H; subst l. exists d. unfold declared_raw. repeat split; assumption.
+Qed.
+
+(* ------------------------------------------------------------ C18_sorted_unique *)
+Theorem sorted_unique : forall t l, from_text orc t = Ok l -> StronglySorted N.lt (map fst l).
+Proof.
+  intros t l H. destruct (from_text_declared t l H) as (d & _ & E & _ & Hn & _). subst l.
+  apply sorted_nodup_strict.
+  - apply sorted_map_le. apply sort_by_sorted.
+  - eapply Permutation_NoDup; [apply Permutation_sym, Permutation_map, sort_by_perm|].
+    rewrite map_fst_enc. exact Hn.
+Qed.
+
+(* ------------------------------------------------------------ C18_mandatory_rejects *)
+Theorem mandatory_rejects : forall t d,
+  declared_raw (parse_ip orc) (b64_dec orc) t = Some d ->
+  mand_names_missing d \/ mand_repeats d \/ mand_names_self d \/ ~ NoDup (map key_of d) ->
+  exists e, from_text orc t = Err e.
+Proof.
+  intros t d Hd Hbad. destruct (from_text orc t) as [l|e] eqn:E; [|exists e; reflexivity].
+  exfalso. destruct (from_text_declared t l E) as (d' & D1 & _ & G & Hn & Mp & _).
+  rewrite Hd in D1. inversion D1; subst d'. rewrite Forall_forall in G.
+  destruct Hbad as [(ks & k & I1 & I2 & I3)|[(ks & I1 & I2)|[(ks & I1 & I2)|Hd2]]].
+  - apply I3. eapply Mp; eauto.
+  - apply I2. apply (G _ I1).
+  - destruct (G _ I1) as (_ & _ & F). rewrite Forall_forall in F. specialize (F 0 I2). lia.
+  - contradiction.
+Qed.
+
+End Decl.
+
+(* ------------------------------------------------------------ the decoder on encoded values *)
+Lemma dec_u16s_enc : forall ks, Forall (fun k => k < 65536) ks -> dec_u16s (flat_map u16be ks) = Some ks.
+Proof.
+  induction ks as [|k ks IH]; intro H; [reflexivity|]. inversion H; subst.
+  change (flat_map u16be (k :: ks)) with ((k / 256) mod 256 :: k mod 256 :: flat_map u16be ks).
+  cbn [dec_u16s]. rewrite IH by assumption. f_equal. f_equal. lia.
+Qed.
+
+Lemma dec_alpn_enc : forall ids fuel, Forall (fun a => 1 <= nlen a <= 255) ids ->
+  (length (alpn_enc ids) <= fuel)%nat ->
+  dec_alpn fuel (alpn_enc ids) = Some ids.
+Proof.
+  induction ids as [|a ids IH]; intros fuel H Hf; [destruct fuel; reflexivity|].
+  inversion H; subst.
+  change (alpn_enc (a :: ids)) with ((nlen a mod 256) :: (a ++ alpn_enc ids)) in *.
+  destruct fuel as [|f]; [simpl in Hf; lia|].
+  assert (En : nlen a mod 256 = nlen a) by lia. rewrite En in *.
+  cbn [dec_alpn]. rewrite to_nat_nlen, firstn_app_exact, skipn_app_exact.
+  assert (E1 : (nlen a =? 0) = false) by lia. assert (E2 : (nlen a <? nlen a) = false) by lia.
+  rewrite E1, E2. cbn [orb]. rewrite IH; [reflexivity|assumption|].
+  simpl in Hf. rewrite app_length in Hf. lia.
+Qed.
+
+Lemma dec_chunks_enc : forall n a fuel, (0 < n)%nat -> Forall (fun x => length x = n) a ->
+  (length (concat a) <= fuel)%nat -> dec_chunks n fuel (concat a) = Some a.
+Proof.
+  intros n. induction a as [|x a IH]; intros fuel Hn H Hf; [destruct fuel; reflexivity|].
+  inversion H; subst. cbn [concat] in *.
+  destruct x as [|x0 x']; [simpl in Hn; lia|].
+  destruct fuel as [|f]; [simpl in Hf; lia|].
+  change ((x0 :: x') ++ concat a) with (x0 :: (x' ++ concat a)) in *.
+  cbn [dec_chunks]. change (x0 :: x' ++ concat a) with ((x0 :: x') ++ concat a).
+  rewrite firstn_app_exact, skipn_app_exact.
+  assert (E : (length (x0 :: x') <? length (x0 :: x'))%nat = false) by (apply Nat.ltb_irrefl).
+  rewrite E. rewrite IH; [reflexivity|assumption|assumption|].
+  simpl in Hf. rewrite app_length in Hf. lia.
+Qed.
+
+Lemma good_key_le : forall v, good v -> key_of v <= 6.
+Proof. destruct v; simpl; intros; lia. Qed.
+
+Lemma dec_value_enc : forall v, good v -> dec_value (key_of v) (snd (enc v)) = Some (canon_val v).
+Proof.
+  destruct v; simpl; intro G.
+  - destruct G as (G1 & G2 & G3).
+    set (ks' := sort_by (fun k => k) ks).
+    assert (P : Permutation ks' ks) by apply sort_by_perm.
+    rewrite dec_u16s_enc.
+    + destruct ks' as [|k0 r] eqn:E; [|reflexivity].
+      apply Permutation_nil in P. contradiction.
+    + eapply Permutation_Forall; [apply Permutation_sym; exact P|].
+      eapply Forall_impl; [|exact G3]. intros; simpl in *; lia.
+  - destruct G as (G1 & G2 & _). rewrite dec_alpn_enc by (assumption || lia).
+    destruct ids; [contradiction|reflexivity].
+  - reflexivity.
+  - unfold u16be. f_equal. f_equal. lia.
+  - destruct G as (G1 & G2). rewrite (dec_chunks_enc 4) by
+      first [lia | eapply Forall_impl; [|exact G2]; intros x Hx; apply Hx].
+    destruct a; [contradiction|reflexivity].
+  - reflexivity.
+  - destruct G as (G1 & G2). rewrite (dec_chunks_enc 16) by
+      first [lia | eapply Forall_impl; [|exact G2]; intros x Hx; apply Hx].
+    destruct a; [contradiction|reflexivity].
+  - contradiction.
+Qed.
+
+Lemma to_wire_cons : forall p l, to_wire (p :: l) = param_to_wire p ++ to_wire l.
+Proof. reflexivity. Qed.
+
+Lemma dec_params_enc : forall d fuel prev,
+  Forall good d -> StronglySorted N.lt (map key_of d) -> Forall (fun v => prev <= key_of v) d ->
+  Forall (fun p => nlen (snd p) <= 65535) (map enc d) ->
+  (length (to_wire (map enc d)) <= fuel)%nat ->
+  dec_params fuel prev (to_wire (map enc d)) = Some (map canon_val d).
+Proof.
+  induction d as [|v d IH]; intros fuel prev G S Pv L Hf; [destruct fuel; reflexivity|].
+  pose proof (Forall_inv G) as Gv. pose proof (Forall_inv_tail G) as Gd.
+  pose proof (Forall_inv Pv) as Pv1. pose proof (Forall_inv_tail Pv) as Pv2.
+  cbn [map] in *. pose proof (Forall_inv L) as Lv. pose proof (Forall_inv_tail L) as Ld.
+  cbv beta in Lv, Pv1. apply StronglySorted_inv in S. destruct S as [S1 S2].
+  rewrite to_wire_cons in *. unfold param_to_wire in *. rewrite key_of_enc in *.
+  set (val := snd (enc v)) in *. set (k := key_of v) in *.
+  assert (Hk : k <= 6) by (apply good_key_le; assumption).
+  change (nlen val <= 65535) in Lv.
+  change ((u16be k ++ u16be (nlen val) ++ val) ++ to_wire (map enc d))
+    with ((k / 256) mod 256 :: k mod 256 :: (nlen val / 256) mod 256 :: nlen val mod 256
+          :: (val ++ to_wire (map enc d))) in *.
+  destruct fuel as [|f]; [simpl in Hf; lia|].
+  cbn [dec_params].
+  assert (E1 : (k / 256) mod 256 * 256 + k mod 256 = k) by lia.
+  assert (E2 : (nlen val / 256) mod 256 * 256 + nlen val mod 256 = nlen val) by lia.
+  rewrite E1, E2. rewrite to_nat_nlen, firstn_app_exact, skipn_app_exact.
+  assert (E3 : (prev <=? k) && (nlen val <=? nlen (val ++ to_wire (map enc d))) = true).
+  { rewrite nlen_app. apply andb_true_iff. split; lia. }
+  rewrite E3. unfold val, k. rewrite dec_value_enc by assumption.
+  rewrite IH; [reflexivity|assumption|assumption| |assumption|].
+  - rewrite Forall_map in S2. eapply Forall_impl; [|exact S2]. intros a Ha. cbv beta in Ha. fold k. lia.
+  - simpl in Hf. rewrite app_length in Hf. lia.
+Qed.
+
+Lemma key_of_canon_val : forall v, key_of (canon_val v) = key_of v.
+Proof. destruct v; reflexivity. Qed.
+
+Lemma has_sval_key_in : forall k d, has_sval_key k d = true <-> In k (map key_of d).
+Proof.
+  intros k d. unfold has_sval_key. rewrite existsb_exists, in_map_iff. split.
+  - intros (v & H1 & H2). exists v. split; [apply N.eqb_eq in H2; exact H2|exact H1].
+  - intros (v & H1 & H2). exists v. split; [exact H2|apply N.eqb_eq; exact H1].
+Qed.
+
+Lemma mand_ok_canon : forall d, Forall good d -> mand_present d -> mand_ok (map canon_val d) = true.
+Proof.
+  intros d G Mp. unfold mand_ok. apply forallb_forall. intros w Iw.
+  apply in_map_iff in Iw. destruct Iw as (v & Ev & Iv). subst w.
+  rewrite Forall_forall in G. pose proof (G v Iv) as Gv.
+  destruct v; simpl; try reflexivity. simpl in Gv. destruct Gv as (G1 & G2 & G3).
+  set (ks' := sort_by (fun k => k) ks).
+  assert (P : Permutation ks' ks) by apply sort_by_perm.
+  apply andb_true_iff. split; [apply andb_true_iff; split|].
+  - apply strictly_inc_iff. apply sorted_nodup_strict.
+    + pose proof (sort_by_sorted (fun k : N => k) ks) as Hs.
+      replace (map (fun k : N => k) ks') with ks' in *.
+      * clear - Hs. fold ks' in Hs. induction Hs; constructor; [assumption|].
+        eapply Forall_impl; [|exact H]. intros b Hb. exact Hb.
+      * symmetry. apply map_id.
+    + eapply Permutation_NoDup; [apply Permutation_sym; exact P|exact G2].
+  - apply negb_true_iff. destruct (existsb (N.eqb 0) ks') eqn:E; [|reflexivity]. exfalso.
+    apply existsb_exists in E. destruct E as (x & Ix & Ex). apply N.eqb_eq in Ex. subst x.
+    assert (I0 : In 0 ks) by (eapply Permutation_in; eauto).
+    rewrite Forall_forall in G3. specialize (G3 0 I0). lia.
+  - apply forallb_forall. intros k Ik. apply has_sval_key_in.
+    rewrite map_map. erewrite map_ext by (intro; apply key_of_canon_val).
+    eapply Mp; [exact Iv|]. eapply Permutation_in; eauto.
+Qed.
+
+Lemma mand_present_perm : forall d d', Permutation d' d -> mand_present d -> mand_present d'.
+Proof.
+  intros d d' P Mp ks I k Ik. eapply Permutation_in; [apply Permutation_sym, Permutation_map; exact P|].
+  eapply Mp; [|exact Ik]. eapply Permutation_in; eauto.
+Qed.
+
+(* the accepted list as the encoding of the sorted declared list *)
+Lemma accepted_sorted_form : forall orc,
+  (forall s a, parse_ip orc s = Some a -> length a = 16%nat /\ wf_bytes a) ->
+  (forall s x, b64_dec orc s = Some x -> wf_bytes x) ->
+  forall t l, from_text orc t = Ok l ->
+  exists d d', declared_raw (parse_ip orc) (b64_dec orc) t = Some d /\ d' = sort_by key_of d
+    /\ l = map enc d' /\ canon d = map canon_val d'
+    /\ Forall good d' /\ StronglySorted N.lt (map key_of d') /\ mand_present d'
+    /\ Forall (fun p => nlen (snd p) <= 65535) (map enc d').
+Proof.
+  intros orc Hp Hb t l H.
+  destruct (from_text_declared orc Hp Hb t l H) as (d & D1 & E & G & Hn & Mp & L).
+  exists d, (sort_by key_of d). set (d' := sort_by key_of d).
+  assert (P : Permutation d' d) by apply sort_by_perm.
+  split; [exact D1|]. split; [reflexivity|]. split.
+  { subst l. symmetry. apply (sort_by_map key_of (@fst N bytes) enc). apply key_of_enc. }
+  split.
+  { unfold canon. symmetry. apply (sort_by_map key_of key_of canon_val). apply key_of_canon_val. }
+  split; [eapply Permutation_Forall; [apply Permutation_sym; exact P|exact G]|].
+  split.
+  { apply sorted_nodup_strict.
+    - apply sorted_map_le. apply sort_by_sorted.
+    - eapply Permutation_NoDup; [apply Permutation_sym, Permutation_map; exact P|exact Hn]. }
+  split; [eapply mand_present_perm; eauto|].
+  eapply Permutation_Forall; [apply Permutation_sym, Permutation_map; exact P|exact L].
+Qed.
+
+(* ------------------------------------------------------------ C18_decodes_to_declared *)
+Theorem decodes_to_declared : forall orc,
+  (forall s a, parse_ip orc s = Some a -> length a = 16%nat /\ wf_bytes a) ->
+  (forall s x, b64_dec orc s = Some x -> wf_bytes x) ->
+  forall t l, from_text orc t = Ok l ->
+  exists d, declared (parse_ip orc) (b64_dec orc) t = Some d /\ rfc_decode (to_wire l) = Some d.
+Proof.
+  intros orc Hp Hb t l H.
+  destruct (accepted_sorted_form orc Hp Hb t l H) as (d & d' & D1 & _ & El & Ec & G & S & Mp & L).
+  exists (canon d). unfold declared. rewrite D1. split; [reflexivity|].
+  unfold rfc_decode. subst l. rewrite dec_params_enc; try assumption.
+  - rewrite Ec, mand_ok_canon by assumption. reflexivity.
+  - apply Forall_forall. intros; lia.
+  - lia.
+Qed.
+
+(* ------------------------------------------------------------ text round trip *)
+Lemma trim_byte_clean : forall c s, has_byte c s = false -> trim_byte c s = s.
+Proof.
+  intros c s H. unfold trim_byte.
+  assert (L : trim_left c s = s).
+  { destruct s as [|x s]; [reflexivity|]. simpl in *. apply orb_false_iff in H. destruct H as [H _]. rewrite H. reflexivity. }
+  rewrite L. clear L. induction s as [|x s IH]; [reflexivity|].
+  simpl in H. apply orb_false_iff in H. destruct H as [H1 H2]. simpl. rewrite (IH H2).
+  destruct s; [rewrite H1; reflexivity|reflexivity].
+Qed.
+
+Lemma name_clean : forall k, k <= 6 ->
+  has_byte 61 (name_of_key k) = false /\ has_byte 59 (name_of_key k) = false
+  /\ has_byte 124 (name_of_key k) = false /\ has_byte 34 (name_of_key k) = false.
+Proof.
+  intros k H. assert (E : k = 0 \/ k = 1 \/ k = 2 \/ k = 3 \/ k = 4 \/ k = 5 \/ k = 6) by lia.
+  destruct E as [E|[E|[E|[E|[E|[E|E]]]]]]; subst; repeat split; reflexivity.
+Qed.
+
+Fixpoint nrange (fuel : nat) (i : N) : list N :=
+  match fuel with O => [] | S f => i :: nrange f (i + 1) end.
+
+Lemma nrange_in : forall fuel i p, i <= p < i + N.of_nat fuel -> In p (nrange fuel i).
+Proof.
+  induction fuel as [|f IH]; intros i p H; [lia|]. simpl.
+  destruct (N.eq_dec i p); [left; assumption|right]. apply IH. lia.
+Qed.
+
+Definition port_rt_b (p : N) : bool :=
+  match fmt_u16 p with
+  | [] => false
+  | c :: s => match parse_u16 0 (c :: s) with
+              | Ok q => (q =? p) && negb (has_byte 59 (c :: s)) && negb (has_byte 34 (c :: s))
+              | Err _ => false
+              end
+  end.
+
+Lemma port_rt_all : forallb port_rt_b (nrange (N.to_nat 65536) 0) = true.
+Proof. vm_compute. reflexivity. Qed.
+
+Lemma port_rt : forall p, p < 65536 ->
+  port_marshaller (fmt_u16 p) = Ok (u16be p) /\ has_byte 59 (fmt_u16 p) = false /\ has_byte 34 (fmt_u16 p) = false.
+Proof.
+  intros p H. pose proof port_rt_all as A. rewrite forallb_forall in A.
+  specialize (A p (nrange_in (N.to_nat 65536) 0 p ltac:(lia))). unfold port_rt_b in A.
+  unfold port_marshaller. destruct (fmt_u16 p) as [|c s]; [discriminate|].
+  destruct (parse_u16 0 (c :: s)) as [q|e]; [|discriminate].
+  apply andb_true_iff in A. destruct A as [A A3]. apply andb_true_iff in A. destruct A as [A1 A2].
+  apply N.eqb_eq in A1. subst q. apply negb_true_iff in A2, A3. repeat split; assumption.
+Qed.
+
+Lemma chunks_concat : forall n a fuel, (0 < n)%nat -> Forall (fun x => length x = n) a ->
+  (length (concat a) <= fuel)%nat -> chunks n fuel (concat a) = Ok a.
+Proof.
+  intros n. induction a as [|x a IH]; intros fuel Hn H Hf; [destruct fuel; reflexivity|].
+  pose proof (Forall_inv H) as Hx. pose proof (Forall_inv_tail H) as Ha. cbn [concat] in *.
+  destruct x as [|x0 x']; [simpl in Hx; lia|].
+  destruct fuel as [|f]; [simpl in Hf; lia|].
+  change ((x0 :: x') ++ concat a) with (x0 :: (x' ++ concat a)) in *.
+  cbn [chunks]. change (x0 :: x' ++ concat a) with ((x0 :: x') ++ concat a).
+  rewrite <- Hx. rewrite firstn_app_exact, skipn_app_exact.
+  assert (E : (length (x0 :: x') <? length (x0 :: x'))%nat = false) by (apply Nat.ltb_irrefl).
+  rewrite E. rewrite Hx. rewrite IH; [reflexivity|assumption|assumption|].
+  simpl in Hf. rewrite app_length in Hf. lia.
+Qed.
+
+Lemma alpn_ids_enc : forall ids fuel, Forall (fun a => 1 <= nlen a <= 255) ids ->
+  (length (alpn_enc ids) <= fuel)%nat -> alpn_ids fuel (alpn_enc ids) = Ok ids.
+Proof.
+  induction ids as [|a ids IH]; intros fuel H Hf; [destruct fuel; reflexivity|].
+  pose proof (Forall_inv H) as Hx. pose proof (Forall_inv_tail H) as Ha. cbv beta in Hx.
+  change (alpn_enc (a :: ids)) with ((nlen a mod 256) :: (a ++ alpn_enc ids)) in *.
+  destruct fuel as [|f]; [simpl in Hf; lia|].
+  assert (En : nlen a mod 256 = nlen a) by lia. rewrite En in *.
+  cbn [alpn_ids]. rewrite to_nat_nlen, firstn_app_exact, skipn_app_exact.
+  assert (E2 : (nlen a <? nlen a) = false) by lia. rewrite E2.
+  rewrite IH; [reflexivity|assumption|]. simpl in Hf. rewrite app_length in Hf. lia.
+Qed.
+
+Lemma alpn_loop_enc : forall ids, Forall (fun a => 1 <= nlen a <= 255) ids -> alpn_loop ids = Ok (alpn_enc ids).
+Proof.
+  induction ids as [|a ids IH]; intro H; [reflexivity|].
+  pose proof (Forall_inv H) as Hx. pose proof (Forall_inv_tail H) as Ha. cbv beta in Hx.
+  cbn [alpn_loop]. assert (E : (nlen a =? 0) || (255 <? nlen a) = false) by lia. rewrite E.
+  rewrite IH by assumption. reflexivity.
+Qed.
+
+Lemma mand_loop_names : forall ks seen, NoDup ks -> Forall (fun k => 1 <= k <= 6 /\ ~ In k seen) ks ->
+  mand_loop seen (map name_of_key ks) = Ok (flat_map u16be ks).
+Proof.
+  induction ks as [|k ks IH]; intros seen Hn Hf; [reflexivity|].
+  apply NoDup_cons_iff in Hn. destruct Hn as [Hk Hn].
+  pose proof (Forall_inv Hf) as [Hr Hs]. pose proof (Forall_inv_tail Hf) as Ht.
+  cbn [map mand_loop]. rewrite key_of_name_of_key by lia.
+  assert (E0 : (k =? 0) = false) by lia. rewrite E0.
+  assert (Es : existsb (N.eqb k) seen = false).
+  { destruct (existsb (N.eqb k) seen) eqn:E; [|reflexivity]. exfalso. apply existsb_exists in E.
+    destruct E as (x & Ix & Ex). apply N.eqb_eq in Ex. subst x. contradiction. }
+  rewrite Es. rewrite IH; [reflexivity|assumption|].
+  rewrite Forall_forall in *. intros x Ix. split; [apply Ht; assumption|].
+  intros [E|I]; [subst x; contradiction|]. destruct (Ht x Ix) as [_ Hx]. contradiction.
+Qed.
+
+Lemma ip_to4_mapped : forall a, length a = 4%nat -> ip_to4 (v4_prefix ++ a) = Some a.
+Proof.
+  intros a H. do 4 (destruct a as [|? a]; [discriminate H|]). destruct a; [|discriminate H]. reflexivity.
+Qed.
+
+Section Roundtrip.
+Variable orc : oracles.
+Hypothesis Hparse : forall s a, parse_ip orc s = Some a -> length a = 16%nat /\ wf_bytes a.
+Hypothesis Hb64 : forall s x, b64_dec orc s = Some x -> wf_bytes x.
+(* net.IP.String of a 4-byte address parses back to its 16-byte (v4-in-v6) form *)
+Hypothesis Hp4 : forall a, length a = 4%nat -> wf_bytes a ->
+  parse_ip orc (print_ip orc a) = Some (v4_prefix ++ a).
+(* net.IP.String of a 16-byte address that is not v4-mapped contains a colon and parses back *)
+Hypothesis Hp6 : forall a, length a = 16%nat -> wf_bytes a -> ip_to4 a = None ->
+  parse_ip orc (print_ip orc a) = Some a /\ has_byte 58 (print_ip orc a) = true.
+(* printed addresses contain no ; | or double quote *)
+Hypothesis Hpc : forall a, (length a = 4%nat \/ length a = 16%nat) -> wf_bytes a ->
+  has_byte 59 (print_ip orc a) = false /\ has_byte 124 (print_ip orc a) = false
+  /\ has_byte 34 (print_ip orc a) = false.
+(* base64: Decode inverts Encode; the alphabet has no ; or double quote *)
+Hypothesis Hbe : forall x, wf_bytes x ->
+  b64_dec orc (b64_enc orc x) = Some x /\ has_byte 59 (b64_enc orc x) = false
+  /\ has_byte 34 (b64_enc orc x) = false.
+
+Definition rt_ok (v : sval) : Prop :=
+  match v with VIp6 a => Forall (fun x => ip_to4 x = None) a | _ => True end.
+
+(* what the unmarshaller prints is clean and the marshaller reads it back *)
+Lemma value_roundtrip : forall v, good v -> rt_ok v ->
+  exists s, unmarshal orc (key_of v) (snd (enc v)) = Ok s
+            /\ has_byte 59 s = false /\ trim_byte 34 s = s
+            /\ marshal orc (key_of v) s = Ok (snd (enc v)).
+Proof.
+  destruct v; simpl; intros G R.
+  - (* mandatory *)
+    destruct G as (G1 & G2 & G3).
+    set (ks' := sort_by (fun k => k) ks).
+    assert (P : Permutation ks' ks) by apply sort_by_perm.
+    assert (G3' : Forall (fun k => 1 <= k <= 6) ks') by (eapply Permutation_Forall; [apply Permutation_sym; exact P|exact G3]).
+    assert (G2' : NoDup ks') by (eapply Permutation_NoDup; [apply Permutation_sym; exact P|exact G2]).
+    assert (Nn : map name_of_key ks' <> []).
+    { intro E. apply map_eq_nil in E. rewrite E in P. apply Permutation_nil in P. contradiction. }
+    assert (Cl : forall b, b = 59 \/ b = 124 \/ b = 34 ->
+                 Forall (fun p => has_byte b p = false) (map name_of_key ks')).
+    { intros b Hb. rewrite Forall_map. eapply Forall_impl; [|exact G3']. intros k Hk. cbv beta in Hk.
+      destruct (name_clean k ltac:(lia)) as (_ & C1 & C2 & C3). destruct Hb as [E|[E|E]]; subst b; assumption. }
+    exists (join 124 (map name_of_key ks')).
+    split.
+    { unfold unm_mandatory. rewrite chunks_u16 by lia. cbn [rbind]. f_equal. f_equal.
+      rewrite map_map. apply map_ext_in. intros k Ik. rewrite be16_u16be; [reflexivity|].
+      rewrite Forall_forall in G3'. specialize (G3' k Ik). lia. }
+    split; [apply has_byte_join; [reflexivity|apply Cl; tauto]|].
+    split; [apply trim_byte_clean, has_byte_join; [reflexivity|apply Cl; tauto]|].
+    unfold mandatory_marshaller. rewrite split_join by (try assumption; apply Cl; tauto).
+    assert (Ss : sort_by mand_num (map name_of_key ks') = map name_of_key ks').
+    { apply sort_by_sorted_id.
+      assert (Hs : StronglySorted N.le ks').
+      { pose proof (sort_by_sorted (fun k : N => k) ks) as Hs. fold ks' in Hs.
+        clear - Hs. induction Hs; constructor; [assumption|]. eapply Forall_impl; [|exact H]. intros b Hb. exact Hb. }
+      clear - Hs G3'. induction Hs as [|k l Hs IH Hk]; [constructor|].
+      pose proof (Forall_inv G3') as Gk. pose proof (Forall_inv_tail G3') as Gl.
+      cbn [map]. constructor; [apply IH; assumption|].
+      rewrite Forall_map. rewrite Forall_forall in *. intros x Ix. unfold le_by, mand_num.
+      rewrite !key_of_name_of_key by (try specialize (Gl x Ix); lia). apply Hk. assumption. }
+    rewrite Ss. apply mand_loop_names; [assumption|].
+    eapply Forall_impl; [|exact G3']. intros k Hk. split; [exact Hk|intros []].
+  - (* alpn *)
+    destruct G as (G1 & G2 & G3 & G4).
+    exists (join 124 ids). split.
+    { unfold unm_alpn. rewrite alpn_ids_enc by (assumption || lia). reflexivity. }
+    split.
+    { apply has_byte_join; [reflexivity|]. eapply Forall_impl; [|exact G3]. intros a Ha. apply Ha. }
+    split; [exact G4|].
+    unfold alpn_marshaller. rewrite split_join; [apply alpn_loop_enc; assumption|assumption|].
+    eapply Forall_impl; [|exact G3]. intros a Ha. apply Ha.
+  - exists []. repeat split.
+  - (* port *)
+    destruct (port_rt p G) as (P1 & P2 & P3). exists (fmt_u16 p). split.
+    { unfold u16be. cbn [unm_port]. f_equal. f_equal. lia. }
+    split; [exact P2|]. split; [apply trim_byte_clean; exact P3|exact P1].
+  - (* ipv4hint *)
+    destruct G as (G1 & G2).
+    assert (Cl : forall b, b = 59 \/ b = 124 \/ b = 34 ->
+                 Forall (fun p => has_byte b p = false) (map (print_ip orc) a)).
+    { intros b Hb. rewrite Forall_map. eapply Forall_impl; [|exact G2]. intros x [Lx Wx].
+      destruct (Hpc x (or_introl Lx) Wx) as (C1 & C2 & C3). destruct Hb as [E|[E|E]]; subst b; assumption. }
+    assert (Nn : map (print_ip orc) a <> []) by (intro E; apply map_eq_nil in E; contradiction).
+    exists (join 124 (map (print_ip orc) a)). split.
+    { unfold unm_hint. rewrite (chunks_concat 4) by
+        first [lia | eapply Forall_impl; [|exact G2]; intros x Hx; apply Hx]. reflexivity. }
+    split; [apply has_byte_join; [reflexivity|apply Cl; tauto]|].
+    split; [apply trim_byte_clean, has_byte_join; [reflexivity|apply Cl; tauto]|].
+    unfold ipv4hint_marshaller. rewrite split_join by (try assumption; apply Cl; tauto).
+    clear - G2 Hp4. induction a as [|x a IH]; [reflexivity|].
+    pose proof (Forall_inv G2) as [Lx Wx]. pose proof (Forall_inv_tail G2) as Ga.
+    cbn [map ip4_loop concat]. rewrite (Hp4 x Lx Wx), (ip_to4_mapped x Lx), (IH Ga). reflexivity.
+  - (* ech *)
+    destruct (Hbe b G) as (B1 & B2 & B3). exists (b64_enc orc b).
+    split; [reflexivity|]. split; [exact B2|]. split; [apply trim_byte_clean; exact B3|].
+    unfold ech_marshaller. rewrite B1. reflexivity.
+  - (* ipv6hint *)
+    destruct G as (G1 & G2).
+    assert (Cl : forall b, b = 59 \/ b = 124 \/ b = 34 ->
+                 Forall (fun p => has_byte b p = false) (map (print_ip orc) a)).
+    { intros b Hb. rewrite Forall_map. eapply Forall_impl; [|exact G2]. intros x [Lx Wx].
+      destruct (Hpc x (or_intror Lx) Wx) as (C1 & C2 & C3). destruct Hb as [E|[E|E]]; subst b; assumption. }
+    assert (Nn : map (print_ip orc) a <> []) by (intro E; apply map_eq_nil in E; contradiction).
+    exists (join 124 (map (print_ip orc) a)). split.
+    { unfold unm_hint. rewrite (chunks_concat 16) by
+        first [lia | eapply Forall_impl; [|exact G2]; intros x Hx; apply Hx]. reflexivity. }
+    split; [apply has_byte_join; [reflexivity|apply Cl; tauto]|].
+    split; [apply trim_byte_clean, has_byte_join; [reflexivity|apply Cl; tauto]|].
+    unfold ipv6hint_marshaller. rewrite split_join by (try assumption; apply Cl; tauto).
+    clear - G2 R Hp6. induction a as [|x a IH]; [reflexivity|].
+    pose proof (Forall_inv G2) as [Lx Wx]. pose proof (Forall_inv_tail G2) as Ga.
+    pose proof (Forall_inv R) as Rx. pose proof (Forall_inv_tail R) as Ra. cbv beta in Rx.
+    destruct (Hp6 x Lx Wx Rx) as [Q1 Q2].
+    cbn [map ip6_loop concat]. rewrite Q2, Q1. cbn [negb]. rewrite (IH Ga Ra). reflexivity.
+  - contradiction.
 Qed.
